@@ -122,8 +122,8 @@ CLAIMED["C14"] = ("proof",
     "package and comparing with the model's descriptors; generation is run twice and byte-compared.",
     "DESIGN.md section 8 (C14)",
     "Trusted: Coq kernel; extraction; harness incl. the reflection program template. strcase name mangling (goify) and sort.Slice/sort.Strings are Section variables "
-    "(oracle table / sorted-permutation hypothesis). Partial: termination of the parser on ARBITRARY input is not proved (only on printed schemas and the shipped text); "
-    "'the generated package compiles' is established by compiling, per schema.",
+    "(oracle table / sorted-permutation hypothesis). Parser termination on arbitrary input is proved (fuel length+2 suffices; proving it exposed two real hangs of ParseSchema, "
+    "since fixed). 'The generated package compiles' is established by compiling, per schema.",
     "machine-checked proof in Coq + parser/generator correspondence incl. compile-and-reflect")
 
 CLAIMED["C08"] = ("proof",
